@@ -45,7 +45,7 @@ def inventory(run):
                        'hazard_constructs; hazards_allowed; N.of_nat (List.length finding_groups); typecheck_errors; '
                        'files_scanned; range_statements] ++ sites_by_shape)%list'),
           ('Q_findings', 'finding_groups'),
-          ('Q_eth', '(eth_seal_config_ok, eth_verify_config, eth_verify_seal_args)'),
+          ('Q_eth', '(eth_seal_config_ok, eth_engine_constructions, eth_verify_seal_calls)'),
           ('Q_verdicts', 'map (fun s => (s_file s, s_func s, match site_verdict s with VProved ShStore => "proved: store shape" '
                          '| VProved ShSearch => "proved: search shape" | VProved (ShCollectSort _ _) => "proved: collect-then-sort shape" '
                          '| VArgued => "argued (not proved)" | VOpen _ => "OPEN" end)) map_range_sites_ir')]
@@ -68,7 +68,7 @@ def inventory(run):
     inv['finding_reasons'] = dict(Counter(coq_strings(res.get('Q_findings'))))
     eth = res.get('Q_eth') or ''
     inv['eth_seal_config_ok'] = bool(re.search(r'\(\s*true\s*,', eth))
-    inv['eth_seal_config'] = ' '.join(eth.split())[:400]
+    inv['eth_seal_config'] = ' '.join(eth.split())[:900]
     return inv, ''
 
 
@@ -415,6 +415,7 @@ def check(run):
     elif static_open:
         run.coverage['open_static_obligations'] = dict(unmatched_map_range_sites=inv['unmatched_sites'], unallowed_hazards=inv['unallowed_hazards'])
     elif not run.proof_ok() and not any(v for v in run.violations):
+        run.coverage['proof_build_log_tail'] = (pr.get('build_log') or '')[-3000:]   # diagnosis: translator / make output
         run.proof_violation()
     if ml.get('mismatches') and not ml.get('unstable'):
         run.violation(dict(kind='correspondence', what='a map-loop model of Model/MapLoops.v disagrees with the real function',
